@@ -69,6 +69,45 @@ theorem totalW_map_H (H : List E) : totalW (H.map (fun e => (e.item, e.wt))) = s
   | nil => rfl
   | cons e t ih => simp [totalW, sumR, sumW] at ih ⊢; rw [ih]
 
+theorem countMarks_append (a b : List E) : countMarks (a ++ b) = countMarks a + countMarks b := by
+  simp [countMarks, List.filter_append]
+
+theorem countMarks_entriesOf (g mark : Bool) (items : List (Int × Rat)) :
+    countMarks (entriesOf g mark items) = if g && mark then items.length else 0 := by
+  unfold countMarks entriesOf
+  by_cases h : (g && mark) = true
+  · rw [if_pos h, List.filter_eq_self.mpr]
+    · simp
+    · intro e he
+      simp only [List.mem_reverse, List.mem_map] at he
+      obtain ⟨p, _, rfl⟩ := he
+      exact h
+  · rw [if_neg h, List.filter_eq_nil_iff.mpr]
+    · rfl
+    · intro e he
+      simp only [List.mem_reverse, List.mem_map] at he
+      obtain ⟨p, _, rfl⟩ := he
+      simpa using h
+
+theorem sumW_marked_entriesOf (g mark : Bool) (items : List (Int × Rat)) :
+    sumW ((entriesOf g mark items).filter (·.mark)) = if g && mark then totalW items else 0 := by
+  by_cases h : (g && mark) = true
+  · rw [if_pos h, List.filter_eq_self.mpr, sumW_entriesOf]
+    intro e he
+    exact (mem_entriesOf.mp he).2.trans h
+  · rw [if_neg h, List.filter_eq_nil_iff.mpr]
+    · rfl
+    · intro e he
+      have := (mem_entriesOf.mp he).2
+      simp only [Bool.not_eq_true] at h
+      rw [this, h]; simp
+
+/-- bookkeeping of `resolve_tau` against the marked entries ever fed to the gadget (ghost list `insG`): the
+    denominator never exceeds their number, and when it equals it the numerator is their total weight -/
+def TauBook (u : Un Rat) (insG : List E) : Prop :=
+  u.outerTauDenom ≤ countMarks insG ∧
+  (u.outerTauDenom = countMarks insG → u.outerTauNumer = sumW (insG.filter (·.mark)))
+
 /-- invariant of a union: the gadget satisfies the sketch invariant for the ghost list `insG` of everything fed to
     it, whose total weight is `tot`; `cnt` is the union's item counter -/
 structure UInv (u : Un Rat) (insG LG : List E) (tot : Rat) (cnt : Nat) : Prop where
@@ -79,16 +118,28 @@ structure UInv (u : Un Rat) (insG LG : List E) (tot : Rat) (cnt : Nat) : Prop wh
   tot_eq : sumW insG = tot
   nz : insG ≠ [] → 1 ≤ cnt
 
-theorem mergeItems_spec (u : Un Rat) (insG LG : List E) (tot : Rat) (cnt : Nat) (hu : UInv u insG LG tot cnt)
+/-- a sketch that has seen nothing has no reservoir -/
+theorem Inv.warm_R_of_empty {sk : Sk Rat} {L : List E} (h : Inv sk [] L) : sk.R = [] := by
+  by_contra hr
+  have he := h.est hr
+  have hl := h.perm.length_eq
+  simp at hl
+  have := he.rLen
+  omega
+
+theorem mergeItems_spec (T : Tunables) (u : Un Rat) (insG LG : List E) (tot : Rat) (cnt : Nat) (hu : UInv u insG LG tot cnt)
     (sk : Sk Rat) (ins L : List E) (hsk : Inv sk ins L) (ds : Draws Rat) :
-    ∃ u' ds' insG' LG', mergeItems u sk ds = some (u', ds') ∧ UInv u' insG' LG' (tot + sumW ins) (cnt + sk.n) ∧
-      u'.maxK = u.maxK ∧ u'.outerTauNumer = u.outerTauNumer ∧ u'.outerTauDenom = u.outerTauDenom := by
+    ∃ u' ds' insG' LG', mergeItems T u sk ds = some (u', ds') ∧ UInv u' insG' LG' (tot + sumW ins) (cnt + sk.n) ∧
+      u'.maxK = u.maxK ∧ u'.outerTauNumer = u.outerTauNumer ∧ u'.outerTauDenom = u.outerTauDenom ∧
+      countMarks insG' = countMarks insG + sk.R.length ∧
+      sumW (insG'.filter (·.mark)) = sumW (insG.filter (·.mark)) + (if sk.R = [] then 0 else sk.totalWtR) := by
   unfold mergeItems
   by_cases hn : sk.n = 0
   · have : ins = [] := List.eq_nil_of_length_eq_zero (by rw [← hsk.n_eq]; exact hn)
     subst this
     simp only [hn, beq_self_eq_true, if_true]
-    exact ⟨u, ds, insG, LG, rfl, ⟨hu.ginv, hu.isGadget, hu.kEq, by simp [hu.n_eq], by simp [sumW, hu.tot_eq], fun h => by have := hu.nz h; omega⟩, rfl, rfl, rfl⟩
+    exact ⟨u, ds, insG, LG, rfl, ⟨hu.ginv, hu.isGadget, hu.kEq, by simp [hu.n_eq], by simp [sumW, hu.tot_eq], fun h => by have := hu.nz h; omega⟩, rfl, rfl, rfl,
+      by rw [hsk.warm_R_of_empty]; simp, by rw [hsk.warm_R_of_empty]; simp⟩
   · simp only [hn, beq_iff_eq, if_false]
     -- H region, unmarked
     have hposH : ∀ p ∈ sk.H.map (fun e => (e.item, e.wt)), 0 < p.2 := by
@@ -96,7 +147,7 @@ theorem mergeItems_spec (u : Un Rat) (insG LG : List E) (tot : Rat) (cnt : Nat) 
       obtain ⟨e, he, rfl⟩ := List.mem_map.mp hp
       exact hsk.pos e (hsk.perm.symm.subset (List.mem_append_left _ he))
     obtain ⟨g1, ds1, L1, hf1, hinv1, hk1, hg1, _, _⟩ :=
-      feed_spec false (sk.H.map (fun e => (e.item, e.wt))) u.gadget insG LG ds hu.ginv hposH (by simp)
+      feed_spec T false (sk.H.map (fun e => (e.item, e.wt))) u.gadget insG LG ds hu.ginv hposH (by simp)
     rw [hf1]
     simp only []
     by_cases hr : sk.R = []
@@ -104,20 +155,27 @@ theorem mergeItems_spec (u : Un Rat) (insG LG : List E) (tot : Rat) (cnt : Nat) 
       have hrs : sk.rSamplesCorrected = [] := by simp [Sk.rSamplesCorrected, hr]
       rw [hrs]
       simp only [feed]
-      refine ⟨_, ds1, _, L1, rfl, ⟨hinv1, by rw [hg1]; exact hu.isGadget, by rw [hk1]; exact hu.kEq, by simp [hu.n_eq], ?_, fun _ => by omega⟩, rfl, rfl, rfl⟩
-      rw [sumW_append, sumW_entriesOf, totalW_map_H, hu.tot_eq, ← hsk.weight.1 hr]; ring
+      refine ⟨_, ds1, _, L1, rfl, ⟨hinv1, by rw [hg1]; exact hu.isGadget, by rw [hk1]; exact hu.kEq, by simp [hu.n_eq], ?_, fun _ => by omega⟩, rfl, rfl, rfl, ?_, ?_⟩
+      · rw [sumW_append, sumW_entriesOf, totalW_map_H, hu.tot_eq, ← hsk.weight.1 hr]; ring
+      · rw [countMarks_append, countMarks_entriesOf, hr]; simp
+      · rw [List.filter_append, sumW_append, sumW_marked_entriesOf, hr]; simp
     · have he := hsk.est hr
       have hLne : L ≠ [] := by intro h; have := he.rLen; rw [h] at this; simp at this
       have hWpos : 0 < sk.totalWtR := by
         rw [he.wtR]
         exact sumW_pos hLne (fun e heL => hsk.pos e (hsk.perm.symm.subset (List.mem_append_right _ heL)))
-      obtain ⟨hposR, htotR, _⟩ := rSamplesCorrected_spec sk hr hWpos
+      obtain ⟨hposR, htotR, hrlen⟩ := rSamplesCorrected_spec sk hr hWpos
       obtain ⟨g2, ds2, L2, hf2, hinv2, hk2, hg2, _, _⟩ :=
-        feed_spec true sk.rSamplesCorrected g1 _ L1 ds1 hinv1 hposR (fun _ => by rw [hg1]; exact hu.isGadget)
+        feed_spec T true sk.rSamplesCorrected g1 _ L1 ds1 hinv1 hposR (fun _ => by rw [hg1]; exact hu.isGadget)
       rw [hf2]
       refine ⟨_, ds2, _, L2, rfl, ⟨hinv2, by rw [hg2, hg1]; exact hu.isGadget, by rw [hk2, hk1]; exact hu.kEq,
-        by simp [hu.n_eq], ?_, fun _ => by omega⟩, rfl, rfl, rfl⟩
-      rw [sumW_append, sumW_entriesOf, htotR, sumW_append, sumW_entriesOf, totalW_map_H, hu.tot_eq, ← hsk.weight.2 hr]; ring
+        by simp [hu.n_eq], ?_, fun _ => by omega⟩, rfl, rfl, rfl, ?_, ?_⟩
+      · rw [sumW_append, sumW_entriesOf, htotR, sumW_append, sumW_entriesOf, totalW_map_H, hu.tot_eq, ← hsk.weight.2 hr]; ring
+      · rw [countMarks_append, countMarks_entriesOf, countMarks_append, countMarks_entriesOf, hg1, hu.isGadget, hrlen]
+        simp; omega
+      · rw [List.filter_append, sumW_append, sumW_marked_entriesOf, List.filter_append, sumW_append, sumW_marked_entriesOf,
+          hg1, hu.isGadget, htotR, if_neg hr]
+        simp; ring
 
 theorem resolveTau_gadget (u : Un Rat) (sk : Sk Rat) :
     (resolveTau u sk).gadget = u.gadget ∧ (resolveTau u sk).n = u.n ∧ (resolveTau u sk).maxK = u.maxK := by
@@ -126,22 +184,62 @@ theorem resolveTau_gadget (u : Un Rat) (sk : Sk Rat) :
   repeat' split
   all_goals exact ⟨rfl, rfl, rfl⟩
 
-theorem unUpdate_spec (u : Un Rat) (insG LG : List E) (tot : Rat) (cnt : Nat) (hu : UInv u insG LG tot cnt)
-    (sk : Sk Rat) (ins L : List E) (hsk : Inv sk ins L) (ds : Draws Rat) :
-    ∃ u' ds' insG' LG', u.update sk ds = some (u', ds') ∧ UInv u' insG' LG' (tot + sumW ins) (cnt + sk.n) ∧
-      u'.maxK = u.maxK := by
-  obtain ⟨u1, ds1, insG', LG', hm, hinv, hmk, _, _⟩ := mergeItems_spec u insG LG tot cnt hu sk ins L hsk ds
+theorem unUpdate_spec (T : Tunables) (u : Un Rat) (insG LG : List E) (tot : Rat) (cnt : Nat) (hu : UInv u insG LG tot cnt)
+    (hb : TauBook u insG) (sk : Sk Rat) (ins L : List E) (hsk : Inv sk ins L) (ds : Draws Rat) :
+    ∃ u' ds' insG' LG', u.update T sk ds = some (u', ds') ∧ UInv u' insG' LG' (tot + sumW ins) (cnt + sk.n) ∧
+      u'.maxK = u.maxK ∧ TauBook u' insG' := by
+  obtain ⟨u1, ds1, insG', LG', hm, hinv, hmk, hnum, hden, hcm, hsm⟩ := mergeItems_spec T u insG LG tot cnt hu sk ins L hsk ds
   obtain ⟨h1, h2, h3⟩ := resolveTau_gadget u1 sk
-  refine ⟨resolveTau u1 sk, ds1, insG', LG', by simp [Un.update, hm], ?_, by rw [h3, hmk]⟩
-  exact ⟨by rw [h1]; exact hinv.ginv, by rw [h1]; exact hinv.isGadget, by rw [h1, h3]; exact hinv.kEq,
-    by rw [h2]; exact hinv.n_eq, hinv.tot_eq, hinv.nz⟩
+  refine ⟨resolveTau u1 sk, ds1, insG', LG', by simp [Un.update, hm], ?_, by rw [h3, hmk], ?_⟩
+  · exact ⟨by rw [h1]; exact hinv.ginv, by rw [h1]; exact hinv.isGadget, by rw [h1, h3]; exact hinv.kEq,
+      by rw [h2]; exact hinv.n_eq, hinv.tot_eq, hinv.nz⟩
+  · obtain ⟨hle, heq⟩ := hb
+    rw [← hden] at hle heq
+    rw [← hnum] at heq
+    -- marked entries counted zero weigh zero
+    have hzero : countMarks insG = 0 → sumW (insG.filter (·.mark)) = 0 := by
+      intro h0
+      unfold countMarks at h0
+      rw [List.eq_nil_of_length_eq_zero h0]; rfl
+    unfold TauBook resolveTau
+    by_cases hr : sk.R = []
+    · have hrl : ¬ sk.R.length > 0 := by rw [hr]; simp
+      rw [if_neg hrl, hcm, hsm, hr]
+      simp only [List.length_nil, Nat.add_zero, if_true, add_zero]
+      exact ⟨hle, heq⟩
+    · have hrpos : sk.R.length > 0 := length_pos_of_ne_nil hr
+      rw [if_pos hrpos, hcm, hsm, if_neg hr]
+      simp only []
+      split
+      · refine ⟨by show sk.R.length ≤ _; omega, fun h => ?_⟩
+        have h0 : countMarks insG = 0 := by
+          have : sk.R.length = countMarks insG + sk.R.length := h
+          omega
+        show sk.totalWtR = _
+        rw [hzero h0]; ring
+      · split
+        · refine ⟨by show sk.R.length ≤ _; omega, fun h => ?_⟩
+          have h0 : countMarks insG = 0 := by
+            have : sk.R.length = countMarks insG + sk.R.length := h
+            omega
+          show sk.totalWtR = _
+          rw [hzero h0]; ring
+        · split
+          · refine ⟨by show u1.outerTauDenom + sk.R.length ≤ _; omega, fun h => ?_⟩
+            have h0 : u1.outerTauDenom = countMarks insG := by
+              have : u1.outerTauDenom + sk.R.length = countMarks insG + sk.R.length := h
+              omega
+            show Num.add u1.outerTauNumer sk.totalWtR = _
+            rw [Num.add_rat, heq h0]
+          · refine ⟨by omega, fun h => ?_⟩
+            exfalso; omega
 
 /-- `update` with each sketch of a list, in order -/
-def unionAll : Un Rat → List (Sk Rat) → Draws Rat → Option (Un Rat × Draws Rat)
+def unionAll (T : Tunables) : Un Rat → List (Sk Rat) → Draws Rat → Option (Un Rat × Draws Rat)
   | u, [], ds => some (u, ds)
   | u, sk :: t, ds =>
-    match u.update sk ds with
-    | some (u1, ds1) => unionAll u1 t ds1
+    match u.update T sk ds with
+    | some (u1, ds1) => unionAll T u1 t ds1
     | none => none
 
 theorem newUnion_inv (T : Tunables) (maxK : Nat) (u0 : Un Rat) (h : Un.new T maxK = some u0) :
